@@ -68,7 +68,9 @@ def run_one(m, root):
         rules = sorted({v["rule"] for v in newv})
         if m["kind"] == "mutant":
             want = m.get("expect_rule")
-            ok = r.returncode == 1 and (want is None or want in rules)
+            # exit 2 (analysis error, e.g. an instance-count floor) still counts when the run
+            # also reported the expected rule as a violation
+            ok = (r.returncode == 1 and (want is None or want in rules)) or (r.returncode == 2 and bool(rules) and (want is None or want in rules))
             return {"id": m["id"], "status": "caught" if ok else "MISSED", "rc": r.returncode, "rules": rules,
                     "first": (newv[0]["instance"] if newv else out[-300:])}
         else:
